@@ -63,3 +63,54 @@ pub fn indirect_chain(spec: SpecId, n: usize) -> Case {
     }
     Case::new(format!("indirect-chain{n}"), spec, db, txs)
 }
+
+/// Two fee-paying transfers, then a contract that reads the coinbase balance: the reader must see
+/// exactly the two preceding credits.
+pub fn coinbase_reader_after_payers(spec: SpecId) -> Case {
+    let mut db = MemDb::default();
+    rich(&mut db, 3);
+    db.deploy(contract(6), kit::coinbase_reader());
+    let txs = vec![
+        ("transfer(e0->e1)".to_string(), transfer(eoa(0), 0, eoa(1), 1)),
+        ("transfer(e1->e0)".to_string(), transfer(eoa(1), 0, eoa(0), 2)),
+        ("coinbase_reader(e2)".to_string(), tx(eoa(2), 0, Some(contract(6)), 0, Default::default())),
+    ];
+    Case::new("coinbase-reader-after-payers", spec, db, txs)
+}
+
+/// Fan-in: two writers of different slots, one reader of both (through incr on each).
+pub fn fan_in(spec: SpecId) -> Case {
+    let mut db = MemDb::default();
+    rich(&mut db, 3);
+    db.deploy(contract(0), kit::incr());
+    db.deploy(contract(3), kit::probe());
+    let txs = vec![
+        ("incr(e0,slot1)".to_string(), call(eoa(0), 0, contract(0), &[word(1)])),
+        ("xfer(e1->c0,5)".to_string(), tx(eoa(1), 0, Some(contract(0)), 5, calldata(&[word(2)]))),
+        ("probe(c0)(e2)".to_string(), call(eoa(2), 0, contract(3), &[word_addr(contract(0))])),
+    ];
+    Case::new("fan-in", spec, db, txs)
+}
+
+/// Independent transfers (no conflicts at all).
+pub fn independent(spec: SpecId, n: usize) -> Case {
+    let mut db = MemDb::default();
+    rich(&mut db, 2 * n as u64);
+    let txs = (0..n)
+        .map(|i| (format!("transfer(e{}->e{})", 2 * i, 2 * i + 1), transfer(eoa(2 * i as u64), 0, eoa(2 * i as u64 + 1), 1)))
+        .collect();
+    Case::new(format!("independent{n}"), spec, db, txs)
+}
+
+/// Second transaction has a nonce gap that the first does not fill: invalid at the commit head,
+/// forcing the sequential recovery path.
+pub fn nonce_gap(spec: SpecId) -> Case {
+    let mut db = MemDb::default();
+    rich(&mut db, 2);
+    let txs = vec![
+        ("transfer(e0#0)".to_string(), transfer(eoa(0), 0, eoa(1), 1)),
+        ("transfer(e0#5)".to_string(), transfer(eoa(0), 5, eoa(1), 1)),
+        ("transfer(e1#0)".to_string(), transfer(eoa(1), 0, eoa(0), 1)),
+    ];
+    Case::new("nonce-gap", spec, db, txs)
+}
